@@ -275,3 +275,272 @@ BYTE_MODELS = {
 for _n, _f in BYTE_PREDICATES.items():
     BYTE_MODELS["core::num::" + _n] = _pred(_f)
     BYTE_MODELS["core::num::<impl u8>::" + _n] = _pred(_f)
+
+
+# ---- constant folding over byte-string constants (program constants such as enum mnemonics) -------------------
+from .fdai import BytesV, UNIT, ClosureV, FnV
+
+
+def _bytes_of(eng, st, v):
+    v = eng.resolve(st, v)
+    n = 0
+    while isinstance(v, RefV) and n < 6:
+        v = eng.resolve(st, load(Loc(v.cell, v.path)))
+        n += 1
+    return v.b if isinstance(v, BytesV) else None
+
+
+def _mkslice(b):
+    return RefV(Cell(BytesV(bytes(b)), "bytes"))
+
+
+def _iter_data(st, it):
+    d = it.fields.get(1)
+    if isinstance(d, BytesV):
+        return list(d.b)
+    return st.extra.get("bytes", [])
+
+
+def m_slice_iter(eng, st, fr, t, name, rname, args):
+    b = _bytes_of(eng, st, args[0])
+    if b is None:
+        return NotImplemented
+    return AggV(BYTES_ITER, {0: K(0), 1: BytesV(b)})
+
+
+def m_slice_len(eng, st, fr, t, name, rname, args):
+    b = _bytes_of(eng, st, args[0])
+    if b is None:
+        return NotImplemented
+    return K(len(b))
+
+
+def m_bytes_next2(eng, st, fr, t, name, rname, args):
+    it = _iter_of(eng, st, args[0])
+    if it is None:
+        return NotImplemented
+    data = _iter_data(st, it)
+    pos = it.fields[0].v
+    if pos < len(data):
+        it.fields[0] = K(pos + 1)
+        return mk_option(RefV(Cell(K(data[pos]), "byte@%d" % pos)))
+    return mk_option(None)
+
+
+def _seq(eng, st, fr, t, items, closure, mkarg, decide, finish):
+    """Run closure over items sequentially on every forked state.
+    decide(index, value) -> ('stop', result) | ('go',) ; finish() -> result when exhausted.
+    Returns list of (state, result)."""
+    out = []
+    work = [(st, 0)]
+    guard = 0
+    while work:
+        s, i = work.pop()
+        guard += 1
+        if guard > 5000:
+            raise fdai.TooManyPaths("byte fold")
+        if s.outcome is not None:
+            out.append((s, TOP))
+            continue
+        if i >= len(items):
+            out.append((s, finish(s)))
+            continue
+        f2 = s.frames[-1]
+        # the closure value must be re-read in the forked state
+        clo = closure(s, f2)
+        for s2, v in eng.call_closure(s, f2, clo, [mkarg(items[i])], t):
+            if s2.outcome is not None:
+                out.append((s2, TOP))
+                continue
+            v = eng.resolve(s2, v)
+            if not isinstance(v, K):
+                out.append((s2, s2.fresh(("fold-undecided",))))
+                continue
+            d = decide(i, bool(v.v), s2)
+            if d[0] == "stop":
+                out.append((s2, d[1]))
+            else:
+                work.append((s2, i + 1))
+    return out
+
+
+def _arg_reader(t, idx, eng):
+    def rd(s, f):
+        return eng.operand(s, f, t["args"][idx])
+    return rd
+
+
+def m_iter_all(eng, st, fr, t, name, rname, args):
+    it = _iter_of(eng, st, args[0])
+    if it is None:
+        return NotImplemented
+    data = _iter_data(st, it)[it.fields[0].v:]
+
+    def fin(s):
+        i2 = _iter_of(eng, s, eng.operand(s, s.frames[-1], t["args"][0]))
+        if i2 is not None:
+            i2.fields[0] = K(i2.fields[0].v + len(data))
+        return K(True)
+
+    return _seq(eng, st, fr, t, data, _arg_reader(t, 1, eng), lambda b: RefV(Cell(K(b), "item")), lambda i, v, s: ("go",) if v else ("stop", K(False)), fin)
+
+
+def m_iter_rposition(eng, st, fr, t, name, rname, args):
+    it = _iter_of(eng, st, args[0])
+    if it is None:
+        return NotImplemented
+    data = _iter_data(st, it)[it.fields[0].v:]
+    n = len(data)
+    rev = list(reversed(data))
+    return _seq(eng, st, fr, t, rev, _arg_reader(t, 1, eng), lambda b: RefV(Cell(K(b), "item")), lambda i, v, s: ("stop", mk_option(K(n - 1 - i))) if v else ("go",), lambda s: mk_option(None))
+
+
+def m_iter_position(eng, st, fr, t, name, rname, args):
+    it = _iter_of(eng, st, args[0])
+    if it is None:
+        return NotImplemented
+    data = _iter_data(st, it)[it.fields[0].v:]
+    return _seq(eng, st, fr, t, data, _arg_reader(t, 1, eng), lambda b: RefV(Cell(K(b), "item")), lambda i, v, s: ("stop", mk_option(K(i))) if v else ("go",), lambda s: mk_option(None))
+
+
+def m_take_while(eng, st, fr, t, name, rname, args):
+    it = eng.resolve(st, args[0])
+    if not (isinstance(it, AggV) and it.kind == BYTES_ITER):
+        return NotImplemented
+    return AggV("bytes-takewhile", {0: it, 1: args[1]})
+
+
+def m_iter_count(eng, st, fr, t, name, rname, args):
+    tw = eng.resolve(st, args[0])
+    if isinstance(tw, AggV) and tw.kind == BYTES_ITER:
+        return K(len(_iter_data(st, tw)) - tw.fields[0].v)
+    if not (isinstance(tw, AggV) and tw.kind == "bytes-takewhile"):
+        return NotImplemented
+    it = tw.fields[0]
+    data = _iter_data(st, it)[it.fields[0].v:]
+    clo = tw.fields[1]
+    n = len(data)
+    # predicate of TakeWhile takes &Item = &&u8
+    return _seq(eng, st, fr, t, data, lambda s, f: clo, lambda b: RefV(Cell(RefV(Cell(K(b), "item")), "itemref")), lambda i, v, s: ("go",) if v else ("stop", K(i)), lambda s: K(n))
+
+
+def m_slice_split(eng, st, fr, t, name, rname, args):
+    b = _bytes_of(eng, st, args[0])
+    if b is None:
+        return NotImplemented
+    return AggV("bytes-split", {0: BytesV(b), 1: args[1], 2: K(False)})
+
+
+def m_split_next(eng, st, fr, t, name, rname, args):
+    v = eng.resolve(st, args[0])
+    sp = eng.resolve(st, load(Loc(v.cell, v.path))) if isinstance(v, RefV) else None
+    if not (isinstance(sp, AggV) and sp.kind == "bytes-split"):
+        return NotImplemented
+    if sp.fields[2].v:
+        return mk_option(None)
+    data = list(sp.fields[0].b)
+    clo = sp.fields[1]
+
+    def upd(s, rest, done):
+        v2 = eng.resolve(s, eng.operand(s, s.frames[-1], t["args"][0]))
+        sp2 = eng.resolve(s, load(Loc(v2.cell, v2.path)))
+        sp2.fields[0] = BytesV(bytes(rest))
+        sp2.fields[2] = K(done)
+
+    def dec(i, val, s):
+        if val:
+            upd(s, data[i + 1:], False)
+            return ("stop", mk_option(_mkslice(data[:i])))
+        return ("go",)
+
+    def fin(s):
+        upd(s, [], True)
+        return mk_option(_mkslice(data))
+
+    return _seq(eng, st, fr, t, data, lambda s, f: clo, lambda b_: RefV(Cell(K(b_), "item")), dec, fin)
+
+
+def m_split_at(eng, st, fr, t, name, rname, args):
+    b = _bytes_of(eng, st, args[0])
+    k = eng.resolve(st, args[1])
+    if b is None or not isinstance(k, K):
+        return NotImplemented
+    if k.v > len(b):
+        st.outcome = "panic"
+        st.trace.append(Event("panic", name, None, (), fr.bi, t.get("line"), len(st.frames), fr.body.npath))
+        return [(st, TOP)]
+    return AggV("tuple", {0: _mkslice(b[: k.v]), 1: _mkslice(b[k.v:])})
+
+
+def m_slice_index(eng, st, fr, t, name, rname, args):
+    b = _bytes_of(eng, st, args[0])
+    r = eng.resolve(st, args[1])
+    if b is None or not isinstance(r, AggV):
+        return NotImplemented
+    kind = r.kind.split("::")[-1]
+    f = [eng.resolve(st, r.fields.get(i)) for i in range(2)]
+    lo, hi = 0, len(b)
+    if kind == "RangeTo" and isinstance(f[0], K):
+        hi = f[0].v
+    elif kind == "RangeFrom" and isinstance(f[0], K):
+        lo = f[0].v
+    elif kind == "Range" and isinstance(f[0], K) and isinstance(f[1], K):
+        lo, hi = f[0].v, f[1].v
+    else:
+        return NotImplemented
+    if lo > hi or hi > len(b):
+        st.outcome = "panic"
+        st.trace.append(Event("panic", name, None, (), fr.bi, t.get("line"), len(st.frames), fr.body.npath))
+        return [(st, TOP)]
+    return _mkslice(b[lo:hi])
+
+
+def m_bytes_eq(eng, st, fr, t, name, rname, args):
+    a = _bytes_of(eng, st, args[0])
+    b = _bytes_of(eng, st, args[1])
+    if a is None or b is None:
+        return NotImplemented
+    st.trace.append(Event("call", name, rname, (("bytes", a), ("bytes", b)), fr.bi, t.get("line"), len(st.frames), fr.body.npath))
+    return K(a == b)
+
+
+def m_bytes_eq_nocase(eng, st, fr, t, name, rname, args):
+    a = _bytes_of(eng, st, args[0])
+    b = _bytes_of(eng, st, args[1])
+    if a is None or b is None:
+        return NotImplemented
+    return K(a.lower() == b.lower())
+
+
+def m_u8_eq_nocase(eng, st, fr, t, name, rname, args):
+    a = _byte_arg(eng, st, args[0])
+    b = _byte_arg(eng, st, args[1])
+    if a is None or b is None:
+        return NotImplemented
+    low = lambda x: x | 0x20 if 65 <= x <= 90 else x
+    return K(low(a) == low(b))
+
+
+FOLD_MODELS = dict(BYTE_MODELS)
+FOLD_MODELS.update({
+    "core::slice::iter": m_slice_iter,
+    "core::slice::len": m_slice_len,
+    "<core::slice::Iter<'a, T> as core::iter::Iterator>::next": m_bytes_next2,
+    "<core::slice::Iter<'a, T> as core::iter::Iterator>::all": m_iter_all,
+    "<core::slice::Iter<'a, T> as core::iter::Iterator>::rposition": m_iter_rposition,
+    "<core::slice::Iter<'a, T> as core::iter::Iterator>::position": m_iter_position,
+    "core::iter::Iterator::all": m_iter_all,
+    "core::iter::Iterator::rposition": m_iter_rposition,
+    "core::iter::Iterator::position": m_iter_position,
+    "core::iter::Iterator::take_while": m_take_while,
+    "core::iter::Iterator::count": m_iter_count,
+    "core::slice::split": m_slice_split,
+    "<core::slice::Split<'a, T, P> as core::iter::Iterator>::next": m_split_next,
+    "core::slice::split_at": m_split_at,
+    "core::slice::index::index": m_slice_index,
+    "core::ops::Index::index": m_slice_index,
+    "core::cmp::PartialEq::eq": m_bytes_eq,
+    "core::cmp::impls::eq": m_bytes_eq,
+    "core::slice::ascii::eq_ignore_ascii_case": m_bytes_eq_nocase,
+    "core::num::eq_ignore_ascii_case": m_u8_eq_nocase,
+})
